@@ -789,4 +789,109 @@ theorem loopInv_step (y z : DState P × FS P) (hI : LoopInv cmd fs₀ ts pre y)
 
 end unit
 
+/-! ### the whole loop -/
+
+/-- what is known about a run that ended in `exit(1)` right after a failing front end -/
+def FailInfo (env : Env P) (cmd : Cmd P) (fs₀ : FS P) (ts : List P) (e : DState P × FS P) : Prop :=
+  ∀ st, e.1.log.getLast? = some (.wait .cc1 st) →
+    ∃ (pre : List (Input P)) (u : Input P) (post : List (Input P)) (y : DState P × FS P),
+      cmd.inputs = pre ++ u :: post ∧ LoopInv cmd fs₀ ts pre y ∧ UnitFail env cmd ts u y e
+
+/-- what is known about a run that reached `return 0` -/
+def Final (cmd : Cmd P) (fs₀ : FS P) (ts : List P) (z : DState P × FS P) : Prop :=
+  ∃ y : DState P × FS P, LoopInv cmd fs₀ ts cmd.inputs y ∧ z.1.tmpfiles = y.1.tmpfiles ∧
+    z.2 = (if cmd.mode = .link ∧ y.1.ldArgs ≠ [] then
+             y.2.set (cmd.out.getD cmd.aout) ⟨.exe, y.1.ldArgs.flatMap (fun p => y.2.origins p)⟩
+           else y.2)
+
+theorem loop_lemma (env : Env P) (cmd : Cmd P) (fs₀ : FS P) (ts : List P) (S : Setup env cmd fs₀ ts) :
+    ∀ (post pre : List (Input P)) (y : DState P × FS P), cmd.inputs = pre ++ post →
+      LoopInv cmd fs₀ ts pre y →
+      match doActs env (compileLoop cmd (totalTemps cmd pre) post) y with
+      | .ok z => Final cmd fs₀ ts z
+      | .error e => FailInfo env cmd fs₀ ts e := by
+  intro post
+  induction post with
+  | nil =>
+    intro pre y hin hI
+    have hpre : pre = cmd.inputs := by simpa using hin.symm
+    subst hpre
+    simp only [compileLoop]
+    by_cases hm : cmd.mode = .link
+    · simp only [hm, if_true, doActs, doAct]
+      by_cases hl : y.1.ldArgs.isEmpty = true
+      · simp only [hl, if_true]
+        refine ⟨y, hI, rfl, ?_⟩
+        have : y.1.ldArgs = [] := by simpa using hl
+        simp [this]
+      · simp only [hl, if_false]
+        by_cases hw : (env.sched Prog.ld y.1.nLd).status.wait = 0
+        · simp only [hw, if_true]
+          refine ⟨y, hI, rfl, ?_⟩
+          have : y.1.ldArgs ≠ [] := by simpa using hl
+          simp [hm, this, childEffect, hw, childOut]
+        · simp only [hw, if_false]
+          intro st hst
+          simp [DState.emit, DState.bump, DState.exitWith] at hst
+    · simp only [hm, if_false, doActs]
+      exact ⟨y, hI, rfl, by simp [hm]⟩
+  | cons u post ih =>
+    intro pre y hin hI
+    simp only [compileLoop]
+    rcases unit_step env cmd fs₀ ts S pre u post hin (compileLoop cmd (totalTemps cmd pre + planTemps cmd u) post) y hI with
+      ⟨z, hz, hU⟩ | ⟨e, he, hF⟩
+    · rw [hz]
+      have hI' := loopInv_step env cmd fs₀ ts S pre u post hin y z hI hU
+      have htot : totalTemps cmd (pre ++ [u]) = totalTemps cmd pre + planTemps cmd u := by
+        rw [totalTemps_append]; simp [totalTemps]
+      have := ih (pre ++ [u]) z (by rw [hin]; simp) hI'
+      rw [htot] at this
+      exact this
+    · rw [he]
+      intro st hst
+      exact ⟨pre, u, post, y, hin, hI, hF⟩
+
+theorem loopInv_init (cmd : Cmd P) (fs₀ : FS P) (ts : List P) : LoopInv cmd fs₀ ts [] (init cmd, fs₀) where
+  tmps := by simp [init, totalTemps]
+  ntemp := rfl
+  ncc1 := rfl
+  units := by simp
+  frame := fun _ _ _ => rfl
+  ldOrig := fun _ => rfl
+  ldWhere := by simp [init]
+
+theorem compileLoop_mkCount (cmd : Cmd P) (n : Nat) (l : List (Input P)) :
+    mkCount (compileLoop cmd n l) = totalTemps cmd l := by
+  induction l generalizing n with
+  | nil => simp only [compileLoop, totalTemps]; split <;> rfl
+  | cons i r ih => simp [compileLoop, mkCount_append, plan_mkCount, ih, totalTemps]
+
+/-- commands the driver does not reject outright -/
+def Accepted (cmd : Cmd P) : Prop :=
+  cmd.inputs ≠ [] ∧ multiO cmd = false ∧ ∀ u ∈ cmd.inputs, effKind cmd.mode u.kind ≠ .unknown
+
+theorem compile_accepted {cmd : Cmd P} (h : Accepted cmd) : compile cmd = compileLoop cmd 0 cmd.inputs := by
+  unfold compile
+  have h1 : cmd.inputs.isEmpty = false := by
+    cases hi : cmd.inputs with
+    | nil => exact absurd hi h.1
+    | cons a r => rfl
+  simp [h1, h.2.1]
+
+theorem plan_no_fail (cmd : Cmd P) (n : Nat) (u : Input P) (why : DrvErr)
+    (h : Act.fail why ∈ plan cmd n u) : effKind cmd.mode u.kind = .unknown := by
+  cases hk : effKind cmd.mode u.kind <;> cases hm : cmd.mode <;>
+    first | rfl | (rw [plan_eq hm hk] at h; simp [planMK] at h)
+
+theorem compileLoop_no_fail (cmd : Cmd P) (n : Nat) (l : List (Input P)) (why : DrvErr)
+    (h : Act.fail why ∈ compileLoop cmd n l) : ∃ u ∈ l, effKind cmd.mode u.kind = .unknown := by
+  induction l generalizing n with
+  | nil => simp only [compileLoop] at h; split at h <;> simp at h
+  | cons i r ih =>
+    simp only [compileLoop, List.mem_append] at h
+    rcases h with h | h
+    · exact ⟨i, by simp, plan_no_fail cmd n i why h⟩
+    · obtain ⟨u, hu, hk⟩ := ih _ h
+      exact ⟨u, by simp [hu], hk⟩
+
 end ChibiVerif.DriverProc
